@@ -38,7 +38,7 @@ impl Property for C14 {
         }
     }
     fn required_classes(&self) -> Vec<&'static str> {
-        vec!["declare", "declares>=2", "virtual-zx-error-due", "same-named-variable-in-scope", "virtual-without-column", "declare-in-block", "clock-triple"]
+        vec!["declare", "declares>=2", "virtual-zx-error-due", "same-named-variable-in-scope", "virtual-without-column", "declare-in-block", "clock-triple", "checked-row-after-virtual-error"]
     }
     fn run(&self, s: &Streams) -> CaseOut {
         let mut out = CaseOut::new();
@@ -71,17 +71,29 @@ impl Property for C14 {
         });
         out.class_if(in_block, "declare-in-block");
         out.class_if(built.analysis.virtuals.iter().any(|v| !built.prog.header.contains(v)), "virtual-without-column");
-        let t = ri::run(&built.prog, &built.sigs, &spec, &ri::RiOpts::default());
+        // the caller keeps iterating after a virtual signal made a row an error item
+        let t = ri::run(&built.prog, &built.sigs, &spec, &ri::RiOpts { continue_after_virtual_error: true, ..Default::default() });
         fact_classes(&mut out, &t);
         if matches!(t.end, ri::RiEnd::StepCap) && t.items.is_empty() {
             out.discard("step-cap-before-first-row");
             return out;
         }
-        let last_h = t.items.last().and_then(|i| match i {
+        let last_h = t.items.iter().rev().find_map(|i| match i {
             ri::RiItem::Hazard { hazard, after_call } => Some((hazard.clone(), *after_call)),
             _ => None,
         });
         out.class_if(matches!(&last_h, Some((ri::Hazard::ZxRead(_), true))), "virtual-zx-error-due");
+        // rows that follow an error item caused by a virtual signal
+        let mut after_err = false;
+        let mut seen_err = false;
+        for i in &t.items {
+            match i {
+                ri::RiItem::Hazard { after_call: true, .. } => seen_err = true,
+                ri::RiItem::Row(r) if seen_err && r.checked => after_err = true,
+                _ => {}
+            }
+        }
+        out.class_if(after_err, "checked-row-after-virtual-error");
         // a variable named like an output that a virtual signal reads is in scope at a checked row
         let vreads: Vec<String> = {
             let mut v = vec![];
@@ -99,7 +111,7 @@ impl Property for C14 {
         let Some(tc) = load_wellformed(&mut out, "c14", &text, &built.sigs) else {
             return out;
         };
-        let real = run_real(&tc, &built.sigs, &spec, &RunOpts { max_next: next_budget(&t), ..Default::default() });
+        let real = run_real(&tc, &built.sigs, &spec, &RunOpts { max_next: next_budget(&t), continue_after_error: true, ..Default::default() });
         if let Some((k, m)) = trace_diff(&t, &real, Projection::VIRTUAL) {
             let key = if k.starts_with("panic:") { k } else { format!("c14:{k}") };
             out.fail(key, m);
